@@ -406,6 +406,19 @@ func c01CheckMisc(c c01MiscCase) engine.Result {
 					break
 				}
 			}
+			// longer slices that CONTAIN a flawless packet behind a prefix (192-byte M2TS source packets have 4 bytes in
+			// front, other framings 1..16): still refused - only 188 bytes make a packet
+			if c.N > 188 && c.N <= 204 {
+				pre := make([]byte, c.N)
+				for i := range pre {
+					pre[i] = byte(i*3 + 5)
+				}
+				pre[c.N-188], pre[c.N-188+3] = 0x47, 0x10
+				res.Evals++
+				if p3, err3 := packet.FromBytes(pre); err3 == nil || p3 != nil {
+					res.Failf("FromBytes|length-with-a-packet-behind-a-prefix", "a slice of %d bytes holding a packet behind %d prefix bytes was accepted", c.N, c.N-188)
+				}
+			}
 			// packets everybody builds (the 0xFF stuffing packet on the null PID, a zero packet, the library's own
 			// New() and example packets): constructing one, scribbling over the result and constructing it again gives
 			// a second, untouched, independent packet each time
